@@ -266,8 +266,9 @@ def _read_attributes_section(
     attributes = []
     block, new_offset = _read_block_items(docstring, offset=offset, **options)
 
-    annotation: str | Expr | None = None
+    annotation: str | Expr | None
     for line_number, attr_lines in block:
+        annotation = None
         try:
             name_with_type, description = attr_lines[0].split(":", 1)
         except ValueError:
